@@ -471,6 +471,12 @@ PROBES = {
     "snake_case_service_extends": {
         "root": "prf", "files": {
             "prf.frugal": "service base_svc {\n void ping()\n}\nservice Child extends base_svc {\n void pong()\n}\n"}},
+    "service_import_through_typedef": {
+        "root": "prh", "files": {
+            "pri.frugal": "struct P { 1: i32 x }\n",
+            "prj.frugal": "struct Q { 1: i32 x }\n",
+            "prh.frugal": 'include "pri.frugal"\ninclude "prj.frugal"\ntypedef pri.P PT\n'
+                          'service Child {\n bool m(1: map<prj.Q, PT> a)\n}\n'}},
     "enum_default_through_typedef": {
         "root": "prg", "files": {
             "prg.frugal": "enum E { A = 1, B = 2 }\ntypedef E ET\nstruct S {\n 1: ET e = E.B,\n 2: map<ET, i32> m = {E.A: 1}\n}\n"}},
@@ -721,7 +727,11 @@ def _run_program(ctx, prog, lb, gen_opts, n_values, stats, judge_cases, judge_me
                     why = "Write failed on a value of the declared type: %s %s" % (r.get("code"), r.get("err") or r.get("panic"))
                 else:
                     tr = trees[(i, pr)]
-                    if tr.get("code") != 0 or tr.get("rest") != 0:
+                    if pr == "json" and tr.get("code") != 0 and ("Infinit" in str(tr.get("err")) or "NaN" in str(tr.get("err"))):
+                        # Apache Thrift's TJSON reader short-reads "-Infinity"/"NaN" at a bufio boundary (library
+                        # defect in the test equipment, not in generated code): the case is not judged under JSON
+                        stats["json_reader_short_read_skipped"] += 1
+                    elif tr.get("code") != 0 or tr.get("rest") != 0:
                         why = "written bytes are not one well-formed %s struct: %s" % (pr, tr)
                     else:
                         probs = []
